@@ -130,26 +130,64 @@ Theorem c14_annotation_only_stale_refuted :
 Proof. exact annotation_only_follows_annotation_refuted. Qed.
 Print Assumptions c14_annotation_only_stale_refuted.
 
+(* ---- init containers (spec.initContainers; never recorded by the webhook, never summed) ---- *)
+
+(* the decision procedure with the init clauses (10: own conversion, 11: pod no tighter) *)
+Theorem c14_prop_code_i_spec : forall g H HI o ri,
+  prop_code_i g H HI o ri = 0 <-> C14_holds g H o /\ init_holds g H HI (fst o) ri.
+Proof. exact prop_code_i_spec. Qed.
+Print Assumptions c14_prop_code_i_spec.
+
+(* the reconciler gives every init container the conversion of its own declared amounts *)
+Theorem c14_reconciler_init_conv : forall g inits, be g = true ->
+  Forall2 (ctr_ok g) inits (map (fun c => container_out_e g (init_view true c)) inits).
+Proof. exact reconciler_init_conv. Qed.
+Print Assumptions c14_reconciler_init_conv.
+
+(* every builder, every stored pod, any init containers: pass, D10 shape, or D11 shape *)
+Theorem c14_view_i_only : forall recon g p inits,
+  let o := run_i recon g p inits in
+  prop_code_i g (handed recon p) inits (fst o) (snd o) = 0
+  \/ d10_shape g (handed recon p) (fst o) = true
+  \/ d11_shape g (handed recon p) inits (fst o) (snd o) = true.
+Proof. exact view_i_only. Qed.
+Print Assumptions c14_view_i_only.
+
+(* D11: the pod-level values ignore init containers. Reconciler: the init container gets its own
+   limits (quota 400000, 8Gi) under a pod cgroup that holds the main container's only (100000,
+   1Gi) - clause 11; proxy / NRI: the init container is not even converted - clause 10 *)
+Theorem c14_init_containers_refuted :
+  exists g p inits, complete true p = true
+    /\ prop_code g (handed true p) (run_b true g p) = 0
+    /\ run_i true g p inits
+       = ((mkRes (Some 1024) (Some 100000) (Some 1073741824), [mkRes (Some 1024) (Some 100000) (Some 1073741824)]),
+          [mkRes (Some 4096) (Some 400000) (Some 8589934592)])
+    /\ prop_code_i g (handed true p) inits (fst (run_i true g p inits)) (snd (run_i true g p inits)) = 11
+    /\ prop_code_i g (handed false p) inits (fst (run_i false g p inits)) (snd (run_i false g p inits)) = 10.
+Proof. exact d11_refuted. Qed.
+Print Assumptions c14_init_containers_refuted.
+
 (* the same over the wire-level entry points the extracted runner executes: for EVERY integer
    input within the generator's guard (two successive rule updates are not neighbouring
    two-decimal values, so the rule holds the ratio the node advertises) the model's own observable
-   passes the decision procedure or has the D10 signature *)
+   passes the decision procedure or has the D10 or the D11 signature *)
 Theorem c14_wire_main : forall inp, input_guard inp = true ->
-  prop_case inp (run_case inp) = 0 \/ finding_sig inp (run_case inp) = 1.
+  prop_case inp (run_case inp) = 0 \/ finding_sig inp (run_case inp) = 1 \/ finding_sig inp (run_case inp) = 2.
 Proof. exact wire_main. Qed.
 Print Assumptions c14_wire_main.
 
 Theorem c14_wire_main_listed : forall inp,
   let '(g, gw, _) := decode inp in
   let '(recon, p) := decode_view inp in
-  complete recon p = true -> ratio g = ratio gw -> prop_case inp (run_case inp) = 0.
+  complete recon p = true -> ratio g = ratio gw -> decode_inits inp = [] ->
+  prop_case inp (run_case inp) = 0.
 Proof. exact wire_main_listed. Qed.
 Print Assumptions c14_wire_main_listed.
 
-(* inputs in the format before the stored-pod widening (no trailing amode) and amode 0 / 3 denote
-   a pod admitted by the webhook: the wire entry points run Model.run on the spec *)
+(* inputs in the format before the stored-pod widening (no trailing amode) and every amode other
+   than 1, 2, 4, 5 (in particular 0 and 3) denote a pod whose annotation the webhook wrote: the wire entry points run Model.run on the spec *)
 Theorem c14_wire_synced : forall mode q c prev k n t amode f,
-  amode <> 1 -> amode <> 2 ->
+  no_annotation amode = false -> keeps_foreign amode = false ->
   skipn (8 * Z.to_nat n) t = [] \/ skipn (8 * Z.to_nat n) t = amode :: f ->
   let inp := mode :: q :: c :: prev :: k :: n :: t in
   let cs := decode_ctrs (Z.to_nat n) t in
